@@ -263,4 +263,10 @@ def run(ctx):
         r01_4(ctx, fx)
         r01_5(ctx, fx)
         r01_6(ctx, fx)
+    if ctx.tier == "thorough":
+        import witness
+        res, tail = witness.run()
+        r = res.get("NoiseModuleIsPrivate", {})
+        ctx.ob("R01.4", "K8:NoiseModuleIsPrivate", r.get("compile_fail") is True and r.get("twin") is True, cfg="default",
+               detail="`use litep2p::crypto::noise::NoiseSocket` is rejected with E0603 outside the crate: %s; compiling twin builds: %s%s" % (r.get("compile_fail"), r.get("twin"), "" if r else " ; harness output: " + tail[-400:]))
     ctx.assume("snow::HandshakeState::get_remote_static is the authenticated remote static key of this session; ed25519-dalek verify is sound")
